@@ -50,6 +50,12 @@ impl Vp8lChunk {
     }
 
     pub fn sanitize_image_data<R: Read>(&self, input: R) -> StdResult<(), Error> {
+        #[cfg(signalapp_mp4san_verif)]
+        let mut reader = BitBufReader::<_, LE>::with_capacity(
+            input,
+            super::bitstream::VERIF_BIT_BUF_CAPACITY.load(std::sync::atomic::Ordering::Relaxed),
+        );
+        #[cfg(not(signalapp_mp4san_verif))]
         let mut reader = BitBufReader::<_, LE>::with_capacity(input, 4096);
         let _image = LosslessImage::read(&mut reader, self.width.into(), self.height.into())?;
         Ok(())
